@@ -5,6 +5,18 @@ os.chdir(os.path.dirname(os.path.abspath(__file__)) + "/..")
 
 # id -> (technique, level text, level note, design_ref); only built checks are listed here
 CHECKS = {
+ "C11": ("enumerated grid (kernel x op x length x alignment x scalar) x generated contents vs. element-wise polynomial model, canaries; release and debug-assertion builds",
+         "Every kernel the host can execute (AVX-512, AVX2, SSSE3, portable, via the hook) and the public dispatchers are run over all lengths 0..=320 (+511..513, 1280, 4099), all 64 start offsets, scalars and adversarial contents, and compared byte for byte with an element-wise model built on the polynomial multiplier; the packed binary operand is built by the harness from the documented layout. Thorough tier enumerates all 256 scalars everywhere.",
+         "NEON kernels cannot run on this x86-64 host. The dispatch override/entry hooks are trusted to call the kernel they name.",
+         "DESIGN.md 5/C11"),
+ "C12": ("guard-page placement of kernel operands in a child process + proptest of the slab's paired borrow (address arithmetic) + ASan replay of a generated corpus",
+         "Dynamic detection on generated inputs: (1) every kernel/op/length with operands flush against PROT_NONE pages (start and end), a fault kills the child and the parent reports the recorded case; (2) generated slab operation sequences: returned slices inside the slab and disjoint, illegal pairs refused, all symbols equal a model; (3) AddressSanitizer builds of the fuzz targets over a generated corpus (driver).",
+         "Only executed paths; NEON excluded; aliasing rules beyond address overlap (Stacked/Tree Borrows) are not checked in the quick tier.",
+         "DESIGN.md 5/C12"),
+ "C16": ("model-based stateful proptest: both matrix implementations vs. a tri-state bit-array model under an admissible-operation grammar",
+         "Generated shapes and operation sequences (construction / indexed / un-indexed phases, mirroring every assert in sparse_matrix.rs) are applied to DenseBinaryMatrix, SparseBinaryMatrix and a plain Vec<Vec<Tri>> model; every query answer of both implementations is compared with the model on defined cells, plus a full scan at the end; also run with debug assertions. Found and drove the repair of two out-of-bounds panics of the dense matrix.",
+         "Sampled sequences; undefined cells (left of start_col after a partial addition where the source row is non-zero) are excluded as the interface declares; trailing dense hint >= 1.",
+         "DESIGN.md 5/C16"),
  "C13": ("exhaustive enumeration (payload IDs) + proptest vs. reference (de)serialisers",
          "All 2^32 payload-ID buffers are parsed and re-serialised against the RFC 3.2 layout (exhaustive); packets and the 12-byte transmission information are checked on generated buffers/values (field-boundary biased) against reference (de)serialisers written from RFC 3.3.2/3.3.3, both directions.",
          "Reference layouts written from the RFC text; OTI and packet sub-checks are sampled, not exhaustive.",
